@@ -74,7 +74,9 @@ func specialScenarios(tier string) []engine.Scenario {
 			engine.Scenario{Name: "many-sequence/bgv-n16", Bound: -1, Fn: func(c *engine.Chooser) {
 				manySequenceLeaf(c, getBGVAdapter(c, circ.BGVSpec{LogN: 5, NQ: 5, QBits: 45, NP: 2, PBits: 50, T: 65537}), "many-sequence/bgv-n16", 3)
 			}},
-			engine.Scenario{Name: "high-precision/ckks-scale90", Bound: -1, Fn: highPrecisionLeaf},
+			engine.Scenario{Name: "diagonal-types/ckks-prec128", Bound: -1, Fn: func(c *engine.Chooser) { highPrecisionLeaf(c, hpSpec) }},
+			engine.Scenario{Name: "diagonal-types/ckks-prec53", Bound: -1, Fn: func(c *engine.Chooser) { highPrecisionLeaf(c, cs) }},
+			engine.Scenario{Name: "diagonal-types/bgv", Bound: -1, Fn: func(c *engine.Chooser) { bgvDiagTypeLeaf(c, bs) }},
 			engine.Scenario{Name: "refusals/ckks", Bound: -1, Fn: func(c *engine.Chooser) { refusalLeaf(c, getCKKSAdapter(c, cs, 3), "refusals/ckks") }},
 		)
 	}
@@ -438,7 +440,11 @@ func refusalLeaf[T any](c *engine.Chooser, a *adapter[T], scName string) {
 	pe := recoverToErr(func() error {
 		switch kind {
 		case "missing-galois-key":
-			ev, _ := a.newEval(a.galoisKeys(c, gals[1:], -1, a.maxLvlP)) // one advertised key is not there
+			// one advertised key is not there (deterministic choice: the largest Galois element; never the identity, element 1,
+			// which the list may contain for rotation 0 and which no evaluation needs)
+			sorted := append([]uint64(nil), gals...)
+			sort.Slice(sorted, func(i, j int) bool { return sorted[i] < sorted[j] })
+			ev, _ := a.newEval(a.galoisKeys(c, sorted[:len(sorted)-1], -1, a.maxLvlP))
 			_, err = ev.EvaluateNew(ct, lt)
 		case "levelP-differs-from-keys":
 			ev, _ := a.newEval(a.galoisKeys(c, gals, -1, a.maxLvlP-1)) // keys with one P prime less than the transformation
@@ -468,23 +474,29 @@ func refusalLeaf[T any](c *engine.Chooser, a *adapter[T], scName string) {
 }
 
 // ---------------------------------------------------------------------------------------------
-// Arbitrary-precision encoding (scale 2^90, encoder precision 128 bits): the matrix is encoded with the world's encoder or
+// Arbitrary-precision encoding (scale 2^90, encoder precision 90 bits): the matrix is encoded with the world's encoder or
 // with a ShallowCopy of it; the result must be within the noise-implied precision (worst-case ε of the same model as
 // everywhere, about 2^-70 here), far below the 2^-52 of a float64 path. Reference: exact dyadic values, big.Float arithmetic.
 
 var hpSpec = circ.CKKSSpec{LogN: 4, NQ: 5, Q0Bits: 60, QBits: 45, NP: 2, PBits: 61, LogScale: 90}
 
-func highPrecisionLeaf(c *engine.Chooser) {
-	a := getCKKSAdapter(c, hpSpec, 3)
-	w := getCKKS(c, hpSpec)
+// diagonal element types accepted by circuits/ckks/lintrans.Diagonals[T]
+var ckksDiagTypes = []string{"complex128", "float64", "*big.Float", "*bignum.Complex"}
+
+func highPrecisionLeaf(c *engine.Chooser, spec circ.CKKSSpec) {
+	a := getCKKSAdapter(c, spec, 3)
+	w := getCKKS(c, spec)
 	p := w.Params
 	useCopy := c.ChooseFree(2, "encoder") == 1
+	dtype := ckksDiagTypes[c.ChooseFree(len(ckksDiagTypes), "diagonal-type")]
+	realOnly := dtype == "float64" || dtype == "*big.Float"
 	ratio := []int{-1, 1}[c.ChooseFree(2, "ratio")]
 	idx := [][]int{{0, 1, 3}, {-2, 5}, {0, 1, 2, 3, 4, 5, 6, 7}}[c.ChooseFree(3, "set")]
-	desc := fmt.Sprintf("ckks scale 2^90, encoder ShallowCopy=%v, ratio=%d, diagonals %v", useCopy, ratio, idx)
+	desc := fmt.Sprintf("ckks scale 2^%d (encoder precision %d), encoder ShallowCopy=%v, Diagonals[%s], ratio=%d, diagonals %v", spec.LogScale, w.Ecd.Prec(), useCopy, dtype, ratio, idx)
 	c.Note("%s", desc)
 	c.Cover("high-precision-encoder", map[bool]string{false: "original", true: "shallow-copy"}[useCopy])
-	sig := "C12/ckks/high-precision/" + map[bool]string{false: "encoder", true: "encoder-shallow-copy"}[useCopy]
+	c.Cover("diagonal-type", fmt.Sprintf("ckks/%s/prec%d", dtype, w.Ecd.Prec()))
+	sig := "C12/ckks/diagonal-type/" + dtype + "/" + map[bool]string{false: "encoder", true: "encoder-shallow-copy"}[useCopy]
 	uni.Seed(c, "high-precision", desc)
 	n := a.n
 	// dyadic values: exact in float64 and in the reference
@@ -498,6 +510,9 @@ func highPrecisionLeaf(c *engine.Chooser) {
 		d := make([]complex128, n)
 		for i := range d {
 			d[i] = complex(float64((i+2*r)%11-5)/8, float64((3*i+r)%7-3)/16)
+			if realOnly {
+				d[i] = complex(real(d[i]), 0)
+			}
 		}
 		diags[k] = d
 	}
@@ -505,14 +520,44 @@ func highPrecisionLeaf(c *engine.Chooser) {
 	if useCopy {
 		ecd = w.Ecd.ShallowCopy()
 	}
-	if ecd.Prec() <= 53 {
-		panic("harness: encoder precision is not above 53 bits")
-	}
 	ct := w.Encrypt(v, a.logN, p.MaxLevel(), p.DefaultScale())
 	lp := lintrans.Parameters{DiagonalsIndexList: append([]int(nil), idx...), LevelQ: p.MaxLevel(), LevelP: p.MaxLevelP(), Scale: p.DefaultScale(),
 		LogDimensions: ct.LogDimensions, LogBabyStepGiantStepRatio: ratio}
 	lt := ckkslt.NewTransformation(p, ckkslt.Parameters(lp))
-	if err := ckkslt.Encode(ecd, ckkslt.Diagonals[complex128](diags), lt); err != nil {
+	// the same matrix handed over as Diagonals[T] for the chosen element type
+	var encErr error
+	switch dtype {
+	case "complex128":
+		encErr = ckkslt.Encode(ecd, ckkslt.Diagonals[complex128](diags), lt)
+	case "float64":
+		m := ckkslt.Diagonals[float64]{}
+		for k, d := range diags {
+			m[k] = make([]float64, len(d))
+			for i := range d {
+				m[k][i] = real(d[i])
+			}
+		}
+		encErr = ckkslt.Encode(ecd, m, lt)
+	case "*big.Float":
+		m := ckkslt.Diagonals[*big.Float]{}
+		for k, d := range diags {
+			m[k] = make([]*big.Float, len(d))
+			for i := range d {
+				m[k][i] = new(big.Float).SetPrec(ecd.Prec()).SetFloat64(real(d[i]))
+			}
+		}
+		encErr = ckkslt.Encode(ecd, m, lt)
+	case "*bignum.Complex":
+		m := ckkslt.Diagonals[*bignum.Complex]{}
+		for k, d := range diags {
+			m[k] = make([]*bignum.Complex, len(d))
+			for i := range d {
+				m[k][i] = bignum.ToComplex(d[i], ecd.Prec())
+			}
+		}
+		encErr = ckkslt.Encode(ecd, m, lt)
+	}
+	if err := encErr; err != nil {
 		c.Fail(sig+"/Encode/error", "%s: %v", desc, err)
 		return
 	}
@@ -534,8 +579,10 @@ func highPrecisionLeaf(c *engine.Chooser) {
 	}
 	eps := a.ltErr(a.freshErr(p.DefaultScale()), maxAbs(a.f, v), dmax, a.fromScale(p.DefaultScale()), p.DefaultScale(), p.MaxLevel(), p.MaxLevelP(), giantSteps(idx))
 	// the float64 slack of the generic model (2^-40 of the magnitude) does not apply: the reference below is exact
-	for _, d := range dmax {
-		eps -= d * maxAbs(a.f, v) * math.Exp2(-40)
+	if w.Ecd.Prec() > 53 {
+		for _, d := range dmax {
+			eps -= d * maxAbs(a.f, v) * math.Exp2(-40)
+		}
 	}
 	bf := func(x float64) *big.Float { return new(big.Float).SetPrec(256).SetFloat64(x) }
 	worst := 0.0
@@ -690,4 +737,75 @@ func manySequenceLeaf[T any](c *engine.Chooser, a *adapter[T], scName string, co
 		c.Count(1)
 	}
 	c.Outcome("many-sequence", desc)
+}
+
+// bgvDiagTypeLeaf: circuits/bgv/lintrans.Diagonals[T] for T = uint64 and int64 (negative values mean t - |x|), >= 2 diagonals,
+// BSGS and naive, exact modulo t.
+func bgvDiagTypeLeaf(c *engine.Chooser, spec circ.BGVSpec) {
+	a := getBGVAdapter(c, spec)
+	w := getBGV(c, spec)
+	p := w.Params
+	t := w.T
+	signed := c.ChooseFree(2, "diagonal-type") == 1
+	ratio := []int{-1, 0, 1}[c.ChooseFree(3, "ratio")]
+	idx := [][]int{{0, 1, 3}, {-2, 5}, {0, 1, 2, 3, 4, 5, 6, 7}}[c.ChooseFree(3, "set")]
+	dtype := map[bool]string{false: "uint64", true: "int64"}[signed]
+	desc := fmt.Sprintf("bgv Diagonals[%s], ratio=%d, diagonals %v", dtype, ratio, idx)
+	c.Note("%s", desc)
+	c.Cover("diagonal-type", "bgv/"+dtype)
+	sig := "C12/bgv/diagonal-type/" + dtype
+	uni.Seed(c, "diagonal-types/bgv", desc)
+	n := a.n
+	v := a.input()
+	ct := a.ciphertext(c, "input", v, p.MaxLevel(), false)
+	model := map[int][]uint64{}
+	du := bgvlt.Diagonals[uint64]{}
+	di := bgvlt.Diagonals[int64]{}
+	for _, k := range idx {
+		r := ((k % n) + n) % n
+		mu := make([]uint64, 2*n)
+		mi := make([]int64, 2*n)
+		for i := range mu {
+			x := int64((i*7+3*r)%41) - 20 // in [-20, 20]
+			if !signed && x < 0 {
+				x = -x + 21
+			}
+			mi[i] = x
+			if x < 0 {
+				mu[i] = t - uint64(-x)
+			} else {
+				mu[i] = uint64(x)
+			}
+		}
+		model[k], du[k], di[k] = mu, mu, mi
+	}
+	lp := lintrans.Parameters{DiagonalsIndexList: append([]int(nil), idx...), LevelQ: p.MaxLevel(), LevelP: p.MaxLevelP(), Scale: p.DefaultScale(),
+		LogDimensions: ct.LogDimensions, LogBabyStepGiantStepRatio: ratio}
+	lt := bgvlt.NewLinearTransformation(p, bgvlt.Parameters(lp))
+	var err error
+	if signed {
+		err = bgvlt.Encode(w.Ecd, di, lt)
+	} else {
+		err = bgvlt.Encode(w.Ecd, du, lt)
+	}
+	if err != nil {
+		c.Fail(sig+"/Encode/error", "%s: %v", desc, err)
+		return
+	}
+	ev, _ := a.newEval(a.galoisKeys(c, lt.GaloisElements(p), -1, p.MaxLevelP()))
+	out, err := ev.EvaluateNew(ct, lintrans.LinearTransformation(lt))
+	if err != nil {
+		c.Fail(sig+"/EvaluateNew/error", "%s: %v", desc, err)
+		return
+	}
+	want := matvec(a.f, model, v, 2, n)
+	got := w.Decode(out, 1)
+	for j := range want {
+		if got[j] != want[j] {
+			c.Fail(sig+"/value", "%s: slot %d got %d want %d\n got  %v\n want %v", desc, j, got[j], want[j], got, want)
+			break
+		}
+	}
+	c.Outcome("diag-type", desc)
+	c.Count(1)
 }
